@@ -267,13 +267,24 @@ pub struct E2eCase {
     pub yields: Vec<bool>,
     pub batch: Vec<bool>,
     pub sched: u64,
+    /// this many minimal entries (no attributes) follow the sized ones in the same write as the final result;
+    /// with unlimited reads behind a large entry that has grown the read buffer they all sit in the buffer at once
+    #[serde(default)]
+    pub burst: u16,
 }
 
 fn e2e_strat(_: &Ctx) -> BoxedStrategy<E2eCase> {
     let size = prop_oneof![6 => 0u32..300, 1 => proptest::sample::select(&[8_100u32, 8_192, 8_300, 16_384, 65_500, 65_536, 70_000][..])];
     let chunk = prop_oneof![3 => 1usize..10, 2 => 10usize..5000, 1 => Just(0usize), 1 => Just(8192usize)];
-    (vec(size, 1..8), prop_oneof![Just(vec![1usize]), vec(chunk, 1..6)], vec(any::<bool>(), 1..4), vec(any::<bool>(), 1..4), any::<u64>())
-        .prop_map(|(sizes, chunks, yields, batch, sched)| E2eCase { sizes, chunks, yields, batch, sched })
+    (vec(size, 1..8), prop_oneof![Just(vec![1usize]), vec(chunk, 1..6)], vec(any::<bool>(), 1..4), vec(any::<bool>(), 1..4), any::<u64>(), prop_oneof![12 => Just(0u16), 1 => 1000u16..3000])
+        .prop_map(|(mut sizes, mut chunks, yields, mut batch, sched, burst)| {
+            if burst > 0 {
+                sizes.insert(0, 150_000);
+                chunks = vec![0];
+                batch = vec![true];
+            }
+            E2eCase { sizes, chunks, yields, batch, sched, burst }
+        })
         .boxed()
 }
 
@@ -299,6 +310,9 @@ pub fn check_e2e(c: &E2eCase, obs: &mut Obs) -> Result<(), Fail> {
                         pending.clear();
                         quiesce().await;
                     }
+                }
+                for k in 0..c2.burst {
+                    pending.extend_from_slice(&RespMsg::new(m.id, Resp::Entry(Entry { dn: format!("cn=b{}", k), attrs: vec![] })).encode());
                 }
                 pending.extend_from_slice(&RespMsg::new(m.id, Resp::result(5, crate::model::Res::ok("done"))).encode());
                 wire.push(&pending);
@@ -342,8 +356,12 @@ pub fn check_e2e(c: &E2eCase, obs: &mut Obs) -> Result<(), Fail> {
         SimResult::Hang => fail!("c06:e2e-hang", "search over a segmented stream never completed"),
     };
     ensure!(err.is_none(), "c06:e2e-error", "search failed: {:?}", err);
-    let want: Vec<(String, usize, u8)> = c.sizes.iter().enumerate().map(|(i, s)| (format!("cn=e{}", i), *s as usize, if *s == 0 { 0 } else { (i as u8).wrapping_add(65) })).collect();
-    ensure!(seen == want, "c06:e2e-entries", "entries delivered {:?}, sent {:?}", seen.iter().map(|s| (&s.0, s.1)).collect::<Vec<_>>(), want.iter().map(|s| (&s.0, s.1)).collect::<Vec<_>>());
+    let mut want: Vec<(String, usize, u8)> = c.sizes.iter().enumerate().map(|(i, s)| (format!("cn=e{}", i), *s as usize, if *s == 0 { 0 } else { (i as u8).wrapping_add(65) })).collect();
+    want.extend((0..c.burst).map(|k| (format!("cn=b{}", k), usize::MAX, 0)));
+    if c.burst > 0 {
+        obs.label("burst>=1000-messages-in-one-buffer");
+    }
+    ensure!(seen == want, "c06:e2e-entries", "{} entries delivered, {} sent; first difference at {:?}", seen.len(), want.len(), seen.iter().zip(want.iter()).position(|(a, b)| a != b));
     if c.sizes.iter().any(|s| *s > 8192) {
         obs.label("entry>8KiB");
     }
@@ -398,7 +416,7 @@ pub fn property() -> Property {
     Property {
         id: "C06",
         level: "exploration",
-        rule: "lanes: decoder (1-6 well-formed response messages of all kinds, 7 B .. 200 KiB, generated BER length forms, concatenated; partitions: whole, 1-byte, generated cut points biased into tag/length headers, and - for streams <= 600 bytes - EVERY 2-chunk split and EVERY prefix) fed to the frame decoder exactly as Framed does; huge (a 1-16 MiB entry between 0-2 leading and 1-3 trailing messages, the read that brings its last byte also bringing 0..all bytes of the followers) (append, decode until 'need more'); oracle: delivered (id, op, controls) sequence equals the model, a message never surfaces before its last byte, after each delivery exactly the following bytes remain; e2e (one streaming search with 1-7 entries of 0..70 000 bytes through the scripted transport with generated read sizes, forced yields and batching). Non-trivial: a split inside a tag/length header, or a chunk holding >=2 messages plus a partial one (decoder); reads smaller than 10 bytes (e2e). Distinct = hash of stream prefix, length and partition.",
+        rule: "lanes: decoder (1-6 well-formed response messages of all kinds, 7 B .. 200 KiB, generated BER length forms, concatenated; partitions: whole, 1-byte, generated cut points biased into tag/length headers, and - for streams <= 600 bytes - EVERY 2-chunk split and EVERY prefix) fed to the frame decoder exactly as Framed does; huge (a 1-16 MiB entry between 0-2 leading and 1-3 trailing messages, the read that brings its last byte also bringing 0..all bytes of the followers) (append, decode until 'need more'); oracle: delivered (id, op, controls) sequence equals the model, a message never surfaces before its last byte, after each delivery exactly the following bytes remain; e2e (one streaming search with 1-7 entries of 0..70 000 bytes through the scripted transport with generated read sizes, forced yields and batching; sometimes followed by a burst of 1000-3000 minimal entries that all sit in the (grown) read buffer at once). Non-trivial: a split inside a tag/length header, or a chunk holding >=2 messages plus a partial one (decoder); reads smaller than 10 bytes (e2e). Distinct = hash of stream prefix, length and partition.",
         assumptions: &["Framed's contract (append then decode until None) is emulated by the harness; the e2e lane uses the real Framed inside the driver"],
         lanes: vec![
             Box::new(PLane { name: "decoder", cases: |t| t.pick(500, 10_000), strat, check }),
